@@ -53,11 +53,14 @@ pub struct Config {
     /// code a simulated thread offers the baton with probability `atomic_rate`/256 (0 = never:
     /// job-granular scheduling, the default)
     pub atomic_rate: u16,
+    /// a simulated thread that would block in the kernel (futex wait) on something another
+    /// simulated thread holds yields instead (`blocked_point`); needs the harness's `syscall` seam
+    pub yield_on_block: bool,
 }
 
 impl Default for Config {
     fn default() -> Self {
-        Config { workers: 1, strategy: Strategy::Sequential, seed: 0, replay: None, step_budget: 5_000_000, stack: 64 << 20, pct_horizon: 400, thread_start: None, thread_wrap: None, atomic_rate: 0 }
+        Config { workers: 1, strategy: Strategy::Sequential, seed: 0, replay: None, step_budget: 5_000_000, stack: 64 << 20, pct_horizon: 400, thread_start: None, thread_wrap: None, atomic_rate: 0, yield_on_block: false }
     }
 }
 
@@ -407,18 +410,22 @@ impl Sim {
                 }
             }
         }
-        // 1b. a thread spinning on a lock is resumed only if no thread at a point could move
-        // instead (the holder of the lock is one of those), so that a spinner can never starve it
-        if non_spin == 0 {
+        // 1b. a thread spinning on a lock is resumed only if NOTHING else can move (the holder of the
+        // lock is at a point, or waits for jobs that others can still run), so that a spinner can
+        // never starve it - whatever the strategy
+        let _ = non_spin;
+        if acts.is_empty() {
+            // nothing else can move (no thread at a point, no wake, no job to pop / steal / take)
             for t in 0..MAX_THREADS {
                 if matches!(self.status[t], St::Spin) {
                     acts.push(Act { kind: 0, t, v: 0 });
                 }
             }
-        }
-        let only_spinners = non_spin == 0 && !acts.is_empty() && acts.iter().all(|a| a.kind == 0);
-        if only_spinners && acts.len() == (0..MAX_THREADS).filter(|&t| matches!(self.status[t], St::Spin)).count() {
-            self.spin_streak = self.spin_streak.saturating_add(1);
+            if acts.is_empty() {
+                self.spin_streak = 0;
+            } else {
+                self.spin_streak = self.spin_streak.saturating_add(1);
+            }
         } else {
             self.spin_streak = 0;
         }
@@ -674,7 +681,7 @@ pub fn blocked_point() -> bool {
     let mut g = lock();
     {
         let Some(sim) = g.as_mut() else { return false };
-        if sim.cfg.atomic_rate == 0 || !matches!(sim.status[me], St::Running) || sim.turn != me {
+        if !(sim.cfg.atomic_rate > 0 || sim.cfg.yield_on_block) || !matches!(sim.status[me], St::Running) || sim.turn != me {
             return false;
         }
         // nobody but spinning threads has been able to move for a long time: the lock they wait for will
@@ -884,7 +891,7 @@ pub fn run_multi<R: Send, F: FnOnce() -> R + Send>(cfg: Config, fs: Vec<F>) -> (
             status[EXT_BASE + x] = St::AtPoint;
         }
     }
-    ATOMIC_ON.store(cfg.atomic_rate > 0, Ordering::SeqCst);
+    ATOMIC_ON.store(cfg.atomic_rate > 0 || cfg.yield_on_block, Ordering::SeqCst);
     TURN.store(EXT_BASE, Ordering::SeqCst);
     *lock() = Some(Sim {
         cfg,
